@@ -327,15 +327,24 @@ G_PartialPrint ==
 \*                                          of an element type olefile does not decode, with a huge element count
 \*   KF-C01-02 Pdf!XrefPrevCycle            read_pdf -> pypdf PdfReader(): trailer /Prev chain revisits an xref offset
 \*   KF-C01-03 Pdf!ParentCycleNoResources   read_pdf -> pypdf extract_text(): page without /Resources, /Parent chain cyclic
-SpinDeviations == {"Ole!VectorCountLoop", "Pdf!XrefPrevCycle", "Pdf!ParentCycleNoResources"}
-SpinKinds(dv) == IF dv = "Ole!VectorCountLoop" THEN LegacyKinds ELSE {"pdf"}
+\*   KF-C01-04 Rtf!InfoRegexQuadratic       read_rtf: _RE_INFO / _RE_INFO_ALT are searched from every `{\info` start: quadratic
+\*                                          in the number of (unterminated) info groups, over the CPU budget from ~100 KB
+\*   KF-C01-05 Rtf!FieldRegexQuadratic      read_rtf: the field / hyperlink regexes, from every `{\field{\*\fldinst` start
+SpinDeviations == {"Ole!VectorCountLoop", "Pdf!XrefPrevCycle", "Pdf!ParentCycleNoResources",
+                   "Rtf!InfoRegexQuadratic", "Rtf!FieldRegexQuadratic"}
+SpinKinds(dv) == IF dv = "Ole!VectorCountLoop" THEN LegacyKinds
+                 ELSE IF dv \in {"Rtf!InfoRegexQuadratic", "Rtf!FieldRegexQuadratic"} THEN {"rtf"} ELSE {"pdf"}
 \* domain predicates on the evidence the harness reads from the input (fields of the Timeout event)
 InDomain_KF_C01_01(e) == e.ole /\ e.vec /\ ~e.known /\ e.cntk >= 1024      \* count >= 2^20 elements
 InDomain_KF_C01_02(e) == e.pdf /\ e.prevcycle
 InDomain_KF_C01_03(e) == e.pdf /\ e.parentcycle
+InDomain_KF_C01_04(e) == e.rtf /\ e.rtfinfo >= 2000           \* >= 2000 `{\info` groups (about 30 KB of them)
+InDomain_KF_C01_05(e) == e.rtf /\ e.rtffield >= 10000         \* >= 10000 HYPERLINK field instructions (about 300 KB)
 InDomain(dv, e) == CASE dv = "Ole!VectorCountLoop" -> InDomain_KF_C01_01(e)
                      [] dv = "Pdf!XrefPrevCycle" -> InDomain_KF_C01_02(e)
                      [] dv = "Pdf!ParentCycleNoResources" -> InDomain_KF_C01_03(e)
+                     [] dv = "Rtf!InfoRegexQuadratic" -> InDomain_KF_C01_04(e)
+                     [] dv = "Rtf!FieldRegexQuadratic" -> InDomain_KF_C01_05(e)
                      [] OTHER -> FALSE
 G_Spin ==
     /\ phase = "run" /\ Depth > 0 /\ pending = None
